@@ -50,6 +50,10 @@ class Option(AbstractOption):
 
     @property
     def default(self):  # type: () -> Any
+        if isinstance(self._default, list):
+            # A copy: the list ends up in the hands of user code as the value it parsed
+            return list(self._default)
+
         return self._default
 
     @property
